@@ -53,6 +53,11 @@ SetSwap(kd) == CASE kd = "SetExtension" -> "SetIntension" [] kd = "SetIntension"
                  [] kd = "Disjunction" -> "ConjunctionParallel" [] kd = "IntersectionExtension" -> "IntersectionIntension" [] OTHER -> "Conjunction"
 Near(v) ==
   CASE v.k \in SetKinds -> {[v EXCEPT !.s = @ \cup {W("q")}], [v EXCEPT !.k = SetSwap(@)]}
+                            \* one element replaced by a term that FEEDS THE SAME HASH INPUT (Hash writes no constructor tag):
+                            \* the same name under another atom kind, and the element wrapped in a negation
+                            \cup (LET e == CHOOSE e \in v.s : TRUE IN
+                                  {[v EXCEPT !.s = (@ \ {e}) \cup {[k |-> "Negation", a |-> e]}]}
+                                  \cup (IF e.k = "Word" THEN {[v EXCEPT !.s = (@ \ {e}) \cup {OP(e.n)}]} ELSE {}))
                             \cup (IF Cardinality(v.s) > 1 THEN {[v EXCEPT !.s = @ \ {CHOOSE e \in v.s : TRUE}]} ELSE {})
     [] v.k \in SymStmtKinds -> (IF Cardinality(v.p) = 1 THEN {[k |-> v.k, p |-> v.p \cup {W("q")}]} ELSE {[k |-> v.k, p |-> {CHOOSE e \in v.p : TRUE, W("q")}]})
                                \cup {[k |-> IF v.k = "Similarity" THEN "Equivalence" ELSE "Similarity", p |-> v.p]}
